@@ -319,9 +319,10 @@ def gen_value(r: random.Random, ty: str, salt: int = 0) -> Any:
 
 
 def gen_bindings(r: random.Random, decls: Dict[str, str], salt: int = 0,
-                 missing_share: float = 0.2, extra_share: float = 0.05) -> Dict[str, Any]:
+                 missing_share: float = 0.2, extra_share: float = 0.05,
+                 package_as_document: bool = False) -> Dict[str, Any]:
     b: Dict[str, Any] = {}
-    if r.random() < 0.08:
+    if r.random() < 0.08 and not package_as_document:
         return b  # no bindings at all
     for name, ty in decls.items():
         if r.random() < missing_share:
@@ -334,7 +335,7 @@ def gen_bindings(r: random.Random, decls: Dict[str, str], salt: int = 0,
         b.pop("a.b", None)
         b.pop("a.c.d", None)
         b["a"] = {"b": gen_value(r, "int", salt)}
-    if "p.x" in decls and r.random() < 0.15:
+    if "p.x" in decls and (package_as_document or r.random() < 0.15):
         # the package itself bound to a document (the CLI's "jq" configuration): names are then
         # found inside the mapping
         b.pop("p.x", None)
